@@ -19,7 +19,7 @@ against Trace_E2image.tla (the same contract operators the model is checked agai
 import os, sys, json, struct, hashlib, shutil, time, re, glob, concurrent.futures as cf
 from common import VERIF, SCRATCH, NPROC, seed, fast_tmp, tool_env, die_broken
 from common import run as sh
-import build as B, tlc as T, tracecheck, mkbase, ext4read, c19_images
+import build as B, tlc as T, mkbase, ext4read, c19_images
 from evidence import Evidence, Verdict
 
 PID = "C19"
@@ -548,15 +548,6 @@ def validate(lines, work, devs=(), tag="t"):
     return bad, r
 
 
-def attribute(line, work):
-    """which named deviation (alone, then all together) makes TLC accept the line?  None = no deviation explains it"""
-    for devs in [(d,) for d in DEVS] + [DEVS]:
-        bad, r = validate([line], work, devs=devs, tag="dev")
-        if not bad:
-            return "+".join(devs)
-    return None
-
-
 MC_QUICK = [("MC_E2image_quick.cfg", True), ("MC_E2image_dense.cfg", True)]
 MC_THOROUGH = [("MC_E2image.cfg", True), ("MC_E2image_dense.cfg", True), ("MC_E2image_dense9.cfg", True), ("MC_E2image_l2n4.cfg", True),
                ("MC_E2image_literal.cfg", True), ("MC_E2image_literal_reach.cfg", False), ("MC_E2image_literal_lastbyte.cfg", False),
@@ -593,7 +584,6 @@ def source_images(build, tier):
             skipped.append((n, "base profile does not pass e2fsck -fn"))
     names = c19_images.EXTRA + c19_images.SIZES_QUICK + (c19_images.SIZES_MORE if tier == "thorough" else [])
     xdir, xmeta = c19_images.images(build, names)
-    seen_geo = set()
     for n in names:
         i = xmeta[n]
         if not i.get("ok"):
@@ -673,7 +663,7 @@ def run(tier):
                                                                           (" -- behaviour of the named deviation %s" % dev) if dev else "")
                 vd.violation(key, what, {"image": l["image"], "mode": l["mode"], "line": strip_line(l), "first_diff": l.get("first_diff"), "detail": {k: l.get(k) for k in ("msg", "qbad", "tool_diff") if l.get(k)}})
             # second binding: the literal writer model, run with the real constants, must build the very file e2image wrote
-            # (cost grows with blocks x file clusters: quick takes the metadata images with small files, thorough also the dense / all-data ones)
+            # (cost grows with blocks x file clusters: filesystems up to LAYOUT_MAX_BLOCKS blocks; quick takes the -Q files, thorough also the -Qa files)
             lay = [l for l in lines if l.get("_layout") and l["rc"] == 0 and
                    ((tier == "thorough" and l["q"]["file_clusters"] <= 1300) or (l["mode"] == "qcow" and l["q"]["file_clusters"] <= 1300))]
 
